@@ -55,6 +55,19 @@ Definition reset_evidence (c : string) : bool :=
   else if String.eqb c "carried:gogrepSubState" then policy_is_always contains_preset_policy && types_set_per_run "gogrepSubState"
   else if String.eqb c "carried:gogrepState" then types_set_per_run "gogrepState"   (* pc / captures: gogrep's MatchNode resets them itself (trusted) *)
   else false.
+(* each holder of the runner object takes over the RunnerState field of the same role (the rule loop's matcher state is
+   not the Contains() searches' one, ...) *)
+Definition carried_role : list (string * string) :=
+  [("gogrepState", "carried:gogrepState"); ("gogrepSubState", "carried:gogrepSubState"); ("nodePath", "carried:nodePath");
+   ("typematchState", "carried:typematchState"); ("env", "carried:evalEnv")].
+Definition carried_keys_ok (l : list (string * string)) : bool :=
+  forallb (fun p => if String.prefix "carried:" (snd p)
+                    then match find (fun q => String.eqb (fst q) (fst p)) carried_role with
+                         | Some q => String.eqb (snd q) (snd p) | None => false end
+                    else true) l.
+Lemma carried_roles_kept : carried_keys_ok gen_rr_literal = true /\ carried_keys_ok gen_fp_literal = true.
+Proof. vm_compute. auto. Qed.
+
 Lemma carried_all_reset : forallb reset_evidence (carried_of gen_rr_literal ++ carried_of gen_fp_literal) = true.
 Proof. vm_compute. reflexivity. Qed.
 
